@@ -363,10 +363,10 @@ pub fn drive(a: &Args) {
                 let mut seq = 0u64;
                 let mut dead = false;
                 let mut last_failed = false;
-                for _ in 0..ops {
+                for opi in 0..ops {
                     // decide the outcome of the attempts this call may make (at most a few)
                     for _ in 0..4 {
-                        let o = if rng.random_bool(pfault) {
+                        let o = if rng.random_bool(pfault) && !(big && opi < 7) {
                             if rng.random_bool(0.3) { Outcome::Intr } else { Outcome::Err }
                         } else {
                             Outcome::Ok
@@ -374,12 +374,30 @@ pub fn drive(a: &Args) {
                         s.push_script(o);
                     }
                     // a caller whose last call failed often simply flushes (again) next
-                    let (op, bytes) = if rng.random_range(0..10) == 0 || (last_failed && rng.random_bool(0.5)) {
+                    // the large-capacity runs start with a fixed, fault-free programme (never left to the seed): a metric that exactly
+                    // fills the empty buffer, a flush, half a buffer, a metric that exactly fills what remains, a small one, the
+                    // smallest oversize metric, and one as long as the largest UDP payload
+                    let scripted: Option<Option<usize>> = if big {
+                        let filled = s.w.as_ref().map(|w| w.verif_state().0).unwrap_or(0);
+                        match opi {
+                            0 => Some(Some(cap.saturating_sub(tlen))),
+                            1 => Some(None),
+                            2 => Some(Some(cap / 2)),
+                            3 => Some(Some(cap.saturating_sub(filled).saturating_sub(tlen))),
+                            4 => Some(Some(5)),
+                            5 => Some(Some(cap.saturating_sub(tlen) + 1)),
+                            6 => Some(Some(65_507usize.saturating_sub(tlen))),
+                            _ => None,
+                        }
+                    } else {
+                        None
+                    };
+                    let (op, bytes) = if scripted == Some(None) || (scripted.is_none() && (rng.random_range(0..10) == 0 || (last_failed && rng.random_bool(0.5)))) {
                         ("flush", vec![])
                     } else {
                         seq += 1;
                         let filled = s.w.as_ref().map(|w| w.verif_state().0).unwrap_or(0);
-                        let mut len = pick_len(&mut rng, cap, tlen, filled);
+                        let mut len = match scripted { Some(Some(l)) => l, _ => pick_len(&mut rng, cap, tlen, filled) };
                         if tlen == 0 && len == 0 {
                             len = 1; // excluded degenerate case: nothing observable (DESIGN.md C05)
                         }
